@@ -70,6 +70,24 @@ theorem C14.name_refused (pfx : Bool) (s : Shape) (name : Str) (d : Desc) (h : c
   · obtain ⟨core, hs, hc⟩ := accepts_spells hacc
     exact ⟨inner, core, hs, Or.inr hp, hc⟩
 
+/-- Name grammar, ranges (for ALL strings, both configurations, every shape): whatever the spelling — plain, alias,
+    auto-degree, behind `refine[*k]:`, behind `tensor:`/`scalar:` — a name is only ever answered with a factory `f`
+    and a count `n` inside `f`'s advertised range; i.e. every spelling that would resolve to a driver with a
+    point-count / degree parameter outside `[min, max]` is refused. -/
+theorem C14.create_out_of_range_refused (pfx : Bool) (s : Shape) (name : Str) (d : Desc)
+    (h : createFor pfx s name = .ok d) : d.fac.minP ≤ d.n ∧ d.n ≤ d.fac.maxP := by
+  obtain ⟨hf, _, core, hs, _⟩ := C14.name_refused pfx s name d h
+  have hall := List.all_eq_true.1 factoryRanges_all s (mem_allShapes s)
+  have hr := List.all_eq_true.1 hall d.fac hf
+  exact hs.range (by simpa using hr)
+
+/-- the contrapositive, in the words of the property: no name is answered with driver `f` and an out-of-range count -/
+theorem C14.out_of_range_never_answered (pfx : Bool) (s : Shape) (name : Str) (d : Desc)
+    (hn : d.n < d.fac.minP ∨ d.fac.maxP < d.n) : createFor pfx s name ≠ .ok d := by
+  intro h
+  have := C14.create_out_of_range_refused pfx s name d h
+  omega
+
 /-- Name grammar, completeness on canonical names: for every factory of every shape and every point count in its
     range, the canonical name `name[:n]` (with the `tensor:`/`scalar:` prefix in the prefix configuration) is
     answered with exactly this factory, this count, un-refined — in both configurations. -/
